@@ -24,6 +24,8 @@ enum Cmd {
     Join(String),
     Monitor(String),
     SelfSend,
+    /// `myself.get_cell().link(w)`: pre_start links the new actor to some other actor
+    SelfLink(ActorCell),
     SpawnChild,
     Finish(u8), // 0 ok, 1 err, 2 panic
 }
@@ -59,6 +61,7 @@ impl Actor for Starter {
                 Cmd::SelfSend => {
                     let _ = myself.cast(Msg::Ping);
                 }
+                Cmd::SelfLink(w) => myself.get_cell().link(w),
                 Cmd::SpawnChild => {
                     let (tx, rx) = mpsc::unbounded_channel();
                     let _ = tx.send(Cmd::Finish(0));
@@ -411,6 +414,10 @@ impl World {
                 self.cmd(us(a), Cmd::Monitor(gn)).await
             }
             ["selfsend", a] => self.cmd(us(a), Cmd::SelfSend).await,
+            ["selflink", a, w] => match self.slots.get(us(w)).and_then(|s| s.cell.clone()) {
+                Some(wc) => self.cmd(us(a), Cmd::SelfLink(wc)).await,
+                None => "ok".into(),
+            },
             ["spawnchild", a] => {
                 let r = self.cmd(us(a), Cmd::SpawnChild).await;
                 self.adopt_children(us(a));
@@ -463,7 +470,9 @@ async fn gen_case(log: &mut Log, st: &mut Stats, rng: &mut Rng, case_no: u64) {
             match k {
                 22..=31 => format!("join {a} {}", rng.below(3)),
                 32..=36 => format!("monitor {a} {}", rng.below(3)),
-                37..=41 => format!("selfsend {a}"),
+                37..=39 => format!("selfsend {a}"),
+                40..=41 if !running.is_empty() => format!("selflink {a} {}", rng.pick(&running)),
+                40..=41 => format!("selfsend {a}"),
                 42..=47 => format!("spawnchild {a}"),
                 48..=52 => format!("cast {a}"),
                 53..=59 => format!("call {a}"),
